@@ -19,7 +19,8 @@ CHECKS = {
              "property's words (get after set / delete, value until next write, empty key and missing key change nothing, "
              "GetKeys sorted, duplicate-free and exactly the readable keys). Tie: seeded histories through the real inline "
              "client (all three write forms, both read forms, boundary content lengths, prefix-related and multi-byte keys) are "
-             "compared step by step with the extracted model and the extracted map machine.",
+             "compared step by step with the extracted model and the extracted map machine. "
+             "The harness keeps the slices returned by the last Gets and re-hashes them after every later Get (the caller owns what Get returned); a quarter of the histories pass request-scoped contexts; empty-key writes go through Set, SetReader and Create alike.",
         design="7/C01", technique="Coq refinement proof (model = abstract machine = key-value map) + differential correspondence run",
         note="Contents are atomic values at this layer (bytes compared by length+SHA-256 in the run). Reopen is excluded from the "
              "theorem (C05). " + NOTE_COMMON),
@@ -52,7 +53,8 @@ CHECKS = {
              "can become visible (C04_uncommitted_invisible); recovery is idempotent also when it is itself interrupted; every "
              "listed key is readable. Tie: every persistent mutation of seeded workloads is a crash point: the workload is re-run "
              "in a child process that dies right before it, a fresh process observes (twice, and after a further death inside "
-             "recovery); the mutation event sequence of each operation is compared with the micro-step table.",
+             "recovery); the mutation event sequence of each operation is compared with the micro-step table. "
+             "Also multi-generation runs: an earlier process writes and exits, a FRESH process opens the directory (its counters come from Load), goes on writing and dies at a chosen mutation, a third process observes.",
         design="7/C04", technique="Coq invariant proof over persisted records + crash-point enumeration on the real code",
         note="Process death, not power loss (Badger SyncWrites=false; assumption on Badger/file-system atomicity per call, DESIGN "
              "section 3). " + NOTE_COMMON),
@@ -64,7 +66,8 @@ CHECKS = {
              "has at Open and the counter may be raised at any time by other instances (C05_open_with_any_counter, "
              "C05_counter_raised_by_others), so every later write keeps winning. The pinned tree violated this (defect D1, "
              "machine-checked witness C05_later_writes_win_refuted_orig); repaired by a fix: commit in /repo. Tie: histories with "
-             "reopen, 2-3 instances interleaved in one process, and a cross-process scenario (the D1 witness) on the real client.",
+             "reopen, 2-3 instances interleaved in one process, and a cross-process scenario (the D1 witness) on the real client. "
+             "Also: the lock skeleton (C08_needs_held for Store/UpdateTx: memory order = persisted order) and concurrent writers of one key followed by Close/Open (what was read before Close is read after Open).",
         design="7/C05", technique="Coq proof (Load invariant, refinement incl. Reopen) + multi-instance / cross-process correspondence run",
         note="Other instances are modelled by their only influence, the sequence counter. Clean Close (pool drained). " + NOTE_COMMON),
     "C14": dict(
@@ -85,8 +88,9 @@ CHECKS = {
              "executable model: it is decided by running programs of concurrent groups (every client operation, Begin at all levels, "
              "Commit/Rollback, collection passes, first use concurrent, 1-3 roots, inline and gRPC) on the harness built with the Go "
              "race detector; any report with an fs_db frame in an access stack is a violation. Four unprotected location classes were "
-             "found this way on the pinned tree (defects D12 and D13a-c) and repaired by fix: commits.",
-        design="7/C15", technique="Coq proof (lockset discipline implies race freedom) + Go race detector on generated concurrent programs",
+             "found this way on the pinned tree (defects D12 and D13a-c) and repaired by fix: commits. "
+             "Tie of the step granularity to the source: the lock/effect skeleton of internal/usecase/core and of the monitor types is REGENERATED from the Go source on every run (fsdbh gen-lockskel) and LockSkelCheck.fsdb_skeleton_ok is re-checked on it; C15_core_accesses_protected (every mutation under the write lock, every read under the lock) and C15_no_conflicting_accesses (any number of threads, each running events accepted by the discipline, interleaved in any way the lock semantics allows: two threads never have conflicting accesses to one store enabled together) connect the skeleton to C15_lockset_sound. Transaction-heavy race programs added.",
+        design="7/C15", technique="Coq proof (lockset discipline implies race freedom) + Go race detector on generated concurrent programs + translator-regenerated lock skeleton (usecase/core and monitor types)",
         note="PARTIAL by nature: a data race is a property of memory accesses of the compiled program on a schedule. The theorem "
              "covers the discipline; the detector covers only schedules that occur in the run (a race on an unobserved schedule is "
              "missed), and the access table is read from the source. " + NOTE_COMMON),
@@ -99,8 +103,9 @@ CHECKS = {
              "NotFound for a key that always had a value) - defect D11, a known finding reproduced on every run through a pause "
              "point; proved instead: the two-step read equals the atomic read when no physical deletion touches the resolved "
              "version in between. Tie: groups of 2-4 concurrent operations under the real scheduler must be linearizable against "
-             "the model (all permutations), no panic, no operation that does not return.",
-        design="7/C06", technique="Coq proof (refinement for atomic steps, lock-order theorem, refutation witness) + linearizability check against the model",
+             "the model (all permutations), no panic, no operation that does not return. "
+             "Tie of the step granularity to the source: the lock/effect skeleton of internal/usecase/core and of the monitor types is REGENERATED from the Go source on every run (fsdbh gen-lockskel) and LockSkelCheck.fsdb_skeleton_ok is re-checked on it; C06_acquisitions_ordered (every acquisition asks for a store ranked above all held: the hypothesis of C06_no_deadlock) and C06_one_critical_section (an operation's events that need a store it enters once are in ONE critical section) are proved for arbitrary paths. A panic or a hang of the implementation inside the harness is reported as a violation with the input isolated.",
+        design="7/C06", technique="Coq proof (refinement for atomic steps, lock-order theorem, refutation witness) + linearizability check against the model + translator-regenerated lock skeleton",
         note="PARTIAL: atomicity of a critical section and the lock sequences are assumptions read from the source; interleavings "
              "inside a step, RWMutex starvation order and torn reads (C15) are not modelled; un-paused schedules are whatever the Go "
              "scheduler produces. Known finding D11. " + NOTE_COMMON),
@@ -112,8 +117,9 @@ CHECKS = {
              "(C07_first_committer_wins_refuted_orig; defect D8 reproduced on the real code with a pause point after the conflict "
              "test: both commits returned nil) and was repaired by a fix: commit making test+publication one critical section. "
              "Tie: 2-3 concurrent committers (+ autocommit writer) with intersecting write sets, all paused after their conflict "
-             "test until all have arrived; the outcome must have at most one winner and equal one sequential order of the model.",
-        design="7/C07", technique="Coq proof (spec-level invariant + simulation) + adversarial schedule replay through a pause point",
+             "test until all have arrived; the outcome must have at most one winner and equal one sequential order of the model. "
+             "Tie of the step granularity to the source: the lock/effect skeleton of internal/usecase/core and of the monitor types is REGENERATED from the Go source on every run (fsdbh gen-lockskel) and LockSkelCheck.fsdb_skeleton_ok is re-checked on it; C07_one_critical_section: conflict test, commit numbers, records and publication of UpdateTx lie in ONE critical section of the committed store (what the atomic commit of the theorem assumes). Staggered programs (a commit in the middle, conflicting writes after it) added.",
+        design="7/C07", technique="Coq proof (spec-level invariant + simulation) + adversarial schedule replay through a pause point + translator-regenerated lock skeleton",
         note="Atomicity of a critical section under the write lock is assumed (Go runtime). On the real code only the adversarial "
              "schedule per case is explored; the theorem covers all orders. " + NOTE_COMMON),
     "C08": dict(
@@ -124,8 +130,9 @@ CHECKS = {
              "is not atomic w.r.t. a multi-key publication (C08_fractured_refuted, D9) and w.r.t. the collector "
              "(C08_gc_horizon_refuted, D10) - known findings, both reproduced deterministically on the real code on every run "
              "with pause points. Tie: scripted schedules + concurrent groups (Begin/Commit/GC/Set) under the real scheduler whose "
-             "outcome, including repeated snapshot reads, must equal one sequential order of the model.",
-        design="7/C08", technique="Coq proof (stability under all operation sequences) with machine-checked refutation witnesses + scripted schedule replay",
+             "outcome, including repeated snapshot reads, must equal one sequential order of the model. "
+             "Tie of the step granularity to the source: the lock/effect skeleton of internal/usecase/core and of the monitor types is REGENERATED from the Go source on every run (fsdbh gen-lockskel) and LockSkelCheck.fsdb_skeleton_ok is re-checked on it; C08_needs_held: sequence numbers are drawn inside the critical section that publishes the version (Store: both write locks; UpdateTx: the committed store's). Probes include GetKeys, a key created and a key deleted after the snapshots; the signatures of D9/D10 for un-paused races are narrow (only the reads of the snapshot begun inside the group may deviate, each to a value some sequential order gives).",
+        design="7/C08", technique="Coq proof (stability under all operation sequences) with machine-checked refutation witnesses + scripted schedule replay + translator-regenerated lock skeleton",
         note="Claimed with known findings D9 and D10 (not repaired: they need a change of the sequencing/locking protocol). " + NOTE_COMMON),
     "C09": dict(
         text="Theorems (Coq): for every sequential history the outputs of all non-collector operations equal those of the history "
@@ -151,7 +158,8 @@ CHECKS = {
              "released and must block) and failure runs; each is replayed on the real readWriter and the pause-point trace, "
              "Write/Close results and stored bytes must equal the model's; the two recorded witness schedules run first; "
              "sequential Create/Write*/Close/Get through the inline and gRPC clients with sizes around the 32 KiB copy buffer; "
-             "streamwriter chunking against the model; a sample is re-evaluated by vm_compute.",
+             "streamwriter chunking against the model; a sample is re-evaluated by vm_compute. "
+             "Also scripted: with the inline Create's storing goroutine parked right after its store failed (pause point inline.create.setFailed), Close must still be waiting and must report the error class afterwards; failing stores (empty key) in the end-to-end cases.",
         design="7/C12", technique="Coq proof (invariant over all interleavings + termination measure) + schedule replay of the "
                                   "extracted model's schedules on the real code + end-to-end runs",
         note="Step granularity = pause points (DESIGN appendix A): interleavings inside a step and the runtime's Mutex/Cond/WaitGroup "
@@ -236,7 +244,8 @@ CHECKS = {
              "byte layout (le64 sequence with the i-th byte = (n/256^i) mod 256, then tx id, content id, raw key; length 40+|key|); "
              "decode is total, rejects exactly strings shorter than 40 bytes, and marshal(unmarshal bs) = bs; canonical textual "
              "ids round-trip. Tie: real marshalFile/unmarshalFile and the repository's Set/GetAll over a recording provider are "
-             "compared byte-for-byte with the extracted model on boundary + random records, arbitrary byte strings, golden vectors.",
+             "compared byte-for-byte with the extracted model on boundary + random records, arbitrary byte strings, golden vectors. "
+             "Also the glue around the codec: C19_set_getall_roundtrip / C19_getall_decodes_each (CodecRepo.v: records with different content ids stored through Set, in one key-value transaction or one by one, are exactly what GetAll returns, for any number of records and any keys) and batches of 0-8 records through the real file repository over a real Badger database.",
         design="7/C19", technique="Coq proof (algebraic round-trip, layout lemma) + byte-level correspondence run",
         note="Bytes modelled as N < 256; only the canonical 36-character UUID text form is modelled. " + NOTE_COMMON),
     "C10": dict(
